@@ -23,6 +23,8 @@ int  check_udiag(const vf_api *P, const ldc *Ud, int n, char *why, size_t wl);
 /* diagonal preference; returns number of decisive columns seen via *decisive; 0 ok / 1 violation */
 int  check_diag_preference(const vf_api *P, const int *perm_r, const int *perm_c, const ldc *Ld, const ldc *Ud,
                            const SuperMatrix *L, int m, int n, double u, int *decisive, int *undecided, char *why, size_t wl);
+int  check_diag_preference_reuse(const vf_api *P, const int *perm_r, const int *perm_c, const ldc *Ld, const ldc *Ud,
+                           const SuperMatrix *L, int m, int n, double u, const int *reuse_perm_r, int *decisive, int *undecided, char *why, size_t wl);
 #endif
 
 /* ------------------------------------------------------------------ expert drivers ?gssvx / ?gsisx */
@@ -71,6 +73,8 @@ ld   rmul_native(const vf_api *P, ld a, ld b);
    op(F) (X/t) = B_after against the factor-derived bound (cfac as in solve_residual_ratio) */
 ld   xdrv_scaled_residual(const xdrv *D, trans_t trans, ld cfac, int *nonfinite);
 ld   xdrv_skeel_sigma(const xdrv *D, trans_t trans);
+/* || |F^-1| |L||U| ||: conditioning of the solve as the factorization actually performs it (>= ~cond(F); large for unstable pivoting) */
+ld   xdrv_solver_cond(const xdrv *D);
 /* checks A_after == diag(R) A0 diag(C) per equed (A0vals: original values in storage order) and index arrays; returns 0 ok */
 int  xdrv_check_A_scaling(const xdrv *D, const vf_snap *idx0, const ldc *A0vals, char *why, size_t wl);
 /* checks B_after against B0 (n x nrhs) per the documented table; returns 0 ok */
